@@ -126,11 +126,12 @@ def build(cfg: dict[str, Any]):
         final = dict(MarkdownIt(preset).options)
         final.update(opts)
         start = dict(opts)
-        for k, f in _FLIP.items():
+        flips = {k: f for k, f in _FLIP.items() if k in final}  # (only options the preset defines)
+        for k, f in flips.items():
             start[k] = f(final[k])
         md = MarkdownIt(preset, start)
         md.render(WARMUP)
-        for i, k in enumerate(sorted(_FLIP)):
+        for i, k in enumerate(sorted(flips)):
             if i % 2 and isinstance(getattr(OptionsDict, k, None), property):
                 setattr(md.options, k, final[k])
             else:
